@@ -502,6 +502,43 @@ def ddict_set_rules(prog, res):
     res.need(R, 5)
 
 
+def window_covers_whole_dictionary(prog, res):
+    """T3: ZSTD_loadDictionaryContent shortens the dictionary twice.  The first cut (index range / short-cache tag) limits
+    what the window can address and comes before the window is extended; the second cut (`8 << max(hashLog, chainLog)`)
+    only limits what gets INDEXED: the whole content stays referenceable (repcodes loaded from the dictionary header and the
+    decoder's window both cover all of it).  The match state's window must therefore be extended with the dictionary before
+    the table-size cut shortens src/srcSize."""
+    R = "T3.window-covers-dictionary"
+    f = prog.fn("ZSTD_loadDictionaryContent")
+    wu = [(b, i) for b, i, c in f.calls("ZSTD_window_update") if "p:0" in f.anchors(c["a"][0], depth=2)]
+    res.check(len(wu) == 1, R, "window-update", f.loc, "the match state's window is extended once", "window updates of the match state: %d" % len(wu))
+    cuts = []
+    for bid, cond, t, fl in f.branches():
+        c = f.resolve_x(cond)
+        anc = f.anchors(c, depth=3)
+        if not ({"f:hashLog", "f:chainLog"} & anc):
+            continue
+        for b, i, x in f.events(lambda y: y.get("k") == "asg" and strip_casts(y["lhs"]).get("k") == "ref" and strip_casts(y["lhs"]).get("rk") == "p"):
+            if (b, i) in f.flow([(t, 0)]) and f.must_pass(via_edges=[(bid, t)], targets=[(b, i)]):
+                cuts.append((b, i))
+    cuts = sorted(set(cuts))
+    res.check(len(cuts) >= 2, R, "index-cut", f.loc, "%d parameter re-assignments under the table-size bound" % len(cuts), "table-size cut of the dictionary not found")
+    ok = bool(wu) and bool(cuts) and all(f.must_pass(via_roots=wu, targets=[c]) for c in cuts)
+    res.check(ok, R, "window-before-index-cut", f.loc, "the window is extended with the dictionary before the indexing cut",
+              "ZSTD_loadDictionaryContent extends the window after the table-size cut: only the indexed suffix of a large dictionary becomes part of "
+              "the window, while repcodes from the dictionary header (validated against the whole content) and the decoder refer to all of it")
+    # and what was cut off BEFORE the window was extended (index range, short-cache tags) is not referenceable at all: the
+    # dictionary's repcodes, validated against the whole content by ZSTD_loadCEntropy, must be re-checked against what was loaded
+    z = prog.fn("ZSTD_loadZstdDictionary")
+    load = z.call_roots("ZSTD_loadDictionaryContent")
+    succ = [t for t in guards.success_nodes(z) if t in z.flow([(b, i + 1) for b, i in load])]
+    wrep = Want("dictionary_corrupted", ">", {"f:rep"}, {"f:nextSrc", "f:dictLimit"})
+    guards.require(z, res, R, "ZSTD_loadZstdDictionary:repcodes-fit-loaded-part", wrep, succ,
+                   starts=[(b, i + 1) for b, i in load], alt_edges=guards.counted_loop_exits(z, guards.find(z, wrep)),
+                   why="(a repcode larger than the loaded end of an over-long dictionary makes the dictMatchState compressors read before it)")
+    res.need(R, 4)
+
+
 def run(tier):
     res = Result("C08", tier)
     tus, info = extract(["compress", "common", "decompress", "dictBuilder"])
@@ -517,6 +554,7 @@ def run(tier):
     content_rules(prog, res)
     cdict_reload_coherence(prog, res)
     ddict_set_rules(prog, res)
+    window_covers_whole_dictionary(prog, res)
     return res.finish(
         explanation="Both entropy loaders read the same tables with the same maxima and limits and refuse the same structural "
                     "faults; `valid` repeat modes are only reachable when the table provably covers every required symbol; "
